@@ -159,7 +159,7 @@ pub fn eval_level(layout: &DocTruth, dir: &DirTruth, now: (i64, u32), id: &str, 
         }
         // step names with glob metacharacters (or none at all) are outside what C02/C15 quantify
         // over: the file-name pattern built from them matches other steps' files too
-        if name.is_empty() || name.contains(|c: char| "*?[]{}/\\".contains(c) || c.is_control()) {
+        if name.is_empty() || !name.chars().all(|c| c.is_ascii_alphanumeric() || c == '_' || c == '-') {
             ev.steps.push(StepEval { name, threshold, cands });
             ev.out_of_scope = true;
             continue;
@@ -376,7 +376,7 @@ pub fn judge_supply(t: &SupplyTrace, o: &SupplyOutcome) -> SupplyJudgement {
         f.extend(c01.iter().cloned());
         f.extend(ev.fails.iter().cloned());
         // C15 summary clause (two-sided on Ok), only for layouts with at least one step
-        if !ev.steps.is_empty() {
+        if !ev.steps.is_empty() && !ev.out_of_scope {
             let (pm, pp) = possible_summary(&ev);
             for v in o.verdicts.iter().filter(|v| v.ok) {
                 if let Some(s) = &v.summary {
